@@ -313,8 +313,7 @@ def run_file(cfg, name, cases, timeout):
     crashed = r.timeout or r.rc is None or r.rc < 0 or r.rc not in (0, 1)
     _, ic, iorder = tok.split_cases(tok.tokenize(r.out))
     complete = (not crashed) and iorder[-1:] == [0]
-    diags = [(int(m.group(1)), m.group(2), m.group(3)) for m in _DIAG.finditer(r.err)
-             if not _BENIGN.match(m.group(3))]
+    diags = [(int(m.group(1)), m.group(2), m.group(3)) for m in _DIAG.finditer(r.err)]
     asan_bad = None
     if cfg.get("asan") and not crashed:
         ba = cfg["asan"]
@@ -338,8 +337,11 @@ def run_file(cfg, name, cases, timeout):
                                % (key_of(c), tok.show(want), tok.show(gc[k])))
         a, z = span[k]
         mine = [x for x in diags if a <= x[0] <= z]
+        # any diagnostic located in a skipped region -- even the redefinition warning that is
+        # legitimate in a kept one -- shows that something in the skipped region was acted upon
         in_skipped = [x for x in mine
                       if any(ra_ <= x[0] <= rz and not act for ra_, rz, act in info["regions"])]
+        mine = in_skipped + [x for x in mine if x not in in_skipped and not _BENIGN.match(x[2])]
         if not complete and (k not in ic or k == iorder[-1] or iorder.count(k) != 1):
             v["status"] = "crash" if crashed else "lost"
         elif k not in ic or iorder.count(k) != 1:
@@ -364,7 +366,7 @@ def run_file(cfg, name, cases, timeout):
         if v["status"] == "ok" and asan_bad:
             v["status"] = "asan?"
             v["asan"] = asan_bad
-        if v["status"] == "ok" and (stray or (r.rc != 0 and not diags)):
+        if v["status"] == "ok" and (stray or (r.rc != 0 and not any(x[1] == "error" for x in diags))):
             v["status"] = "stray?"
             v["stray"] = {"rc": r.rc, "diags": stray[:3]}
         res[k] = v
@@ -397,6 +399,12 @@ def batch_job(job):
             if v["status"] in BAD:
                 v = dict(run_single(cfg, c, k, max(timeout, 20)), batch_status=v["status"])
             out.append((k, v))
+        only_in_batch = [k for k, v in out if v.get("batch_status") and v["status"] not in BAD]
+        if only_in_batch and not any(v["status"] in BAD for _, v in out):
+            # nothing in this file fails alone, so nothing explains the failures inside it
+            return ("harness", "cases %s fail inside batch %s but none of its cases fails alone "
+                               "(batching artefact or state leaking between cases)"
+                    % (only_in_batch[:5], name))
         return ("ok", out)
     except HarnessError as e:
         return ("harness", str(e))
@@ -446,6 +454,9 @@ def explore(ck):
     open(os.path.join(cfg["dir"], "present.h"), "w").close()
     if ck.replay:
         return replay(ck, cfg)
+    head = tools.run(["git", "-C", rel["repo"], "rev-parse", "--short", "HEAD"]).out.strip()
+    dirty = tools.run(["git", "-C", rel["repo"], "status", "--porcelain", "-uno"]).out.strip()
+    ck.extra["tree"] = {"path": rel["repo"], "head": head, "modified_files": dirty.splitlines()}
     variants = VARIANTS
     k_next = 1
     completed = {}
